@@ -58,6 +58,11 @@ def type_narrow(sid: Sid) -> Sid:
         sid with applied configured queries
     """
 
+    # A Sid that still carries an unapplied query cannot be searched (it is dropped by unfold_search).
+    # Narrowing it would merge both queries, and the narrowing value would override the user's filter.
+    if sid.string.count("?"):
+        return sid
+
     query = basetyped_search_narrowing.get(sid.basetype, "")
     if query:
         sid = sid.get_with(query=query)
